@@ -30,7 +30,8 @@ SPEC = {'id': 'C16',
          'generated relay URLs (inside/outside the pattern, ws/wss, userinfo, suffix/prefix tricks, ports, '
          'uppercase, opaque, empty, unparsable) under six patterns and both values of the non-TLS flag; observed: '
          'tokens.count(), len(tokens.ch), Clients of every poll, /answer reached, relay dialed; every case is '
-         'non-trivial; distinct = distinct (class, case line)',
+         'non-trivial; distinct = distinct (class, case line)'
+         ' Also: a connected client that stops reading during a 6 MiB relay-to-client transfer and then leaves (slot must come back); relay-URL histories on long-lived proxies (one SnowflakeProxy per pattern and flag).',
  'level_text': 'All clauses are kernel-checked theorems over an interleaving model of the slot accounting (poll loop one '
                'session at a time with every stage able to fail, OnDataChannel callback at any moment once the peer '
                'connection exists - also while the timeout arm is taken -, any number of overlapping handler '
